@@ -929,6 +929,9 @@ func (fr *Frame) applyHavoc(st, base *State, eff *loopEffects) {
 	for k := range eff.ghost {
 		if t, ok := base.ghost[k]; ok {
 			st.ghost[k] = u.fresh("g!"+k, t.Sort)
+			if k == "epoch" {
+				u.assume(True, Ge(st.ghost[k], t))
+			}
 		}
 	}
 }
